@@ -16,6 +16,38 @@ INDEX_WRITERS = {
 TAXA_GROWERS = {"add_taxon", "__init__", "__deepcopy__"}
 
 
+def remove_release_rule(index, rep, rid):
+    rm = index.function(TNS + ".remove_taxon")
+    cfg = cfg_of(rm)
+    need = {
+        "_taxa": ("remove", "taxon"),
+        "_taxon_accession_index_map": ("pop", "taxon"),
+        "_taxon_bitmask_map": ("pop", "taxon"),
+    }
+    for attr, (meth, arg) in need.items():
+        def hit(n, attr=attr, meth=meth, arg=arg):
+            return any(isinstance(c.func, ast.Attribute) and c.func.attr in (meth, "__delitem__", "discard") and norm(c.func.value) == "self." + attr
+                       and c.args and norm(c.args[0]) == arg for c in node_calls(n)) or \
+                (n.kind == "stmt" and isinstance(n.ast, ast.Delete) and any(isinstance(t, ast.Subscript) and norm(t.value) == "self." + attr and norm(t.slice) == arg for t in n.ast.targets))
+        # paths that raise before doing anything are fine: only normal exits count
+        okp, wit = cfg.must_pass(cfg.entry, hit)
+        rep.check(okp, rid, rm.qualname, "release of " + attr, fn_where(rm),
+                  "remove_taxon releases the taxon's entry in %s on every normal path" % attr,
+                  "remove_taxon can return without removing the taxon from `%s`: a removed taxon keeps its bit / stays a member" % attr)
+    pops = [c for c in calls_in(rm.node) if isinstance(c.func, ast.Attribute) and c.func.attr in ("pop", "remove") and "self._" in norm(c.func.value)]
+    idxvars = {norm(n.targets[0]) for n in walk_no_nested(rm.node) if isinstance(n, ast.Assign) and isinstance(n.value, ast.Call)
+               and call_name(n.value) == "pop" and n.value.args and norm(n.value.args[0]) == "taxon"}
+    for c in pops:
+        a0 = norm(c.args[0]) if c.args else None
+        ok = a0 == "taxon" or a0 in idxvars
+        rep.check(ok, rid, rm.qualname, norm(c), fn_where(rm, c), "remove_taxon touches only the removed taxon's entries: %s" % norm(c),
+                  "remove_taxon removes the entry keyed by `%s`, which is not the removed taxon or its own index: another member loses its bit" % a0)
+    revpop = [c for c in pops if norm(c.func.value) == "self._accession_index_taxon_map"]
+    rep.check(bool(revpop), rid, rm.qualname, "release of _accession_index_taxon_map", fn_where(rm),
+              "remove_taxon releases the index -> taxon entry", "remove_taxon never removes the index -> taxon entry: renderings still name the removed taxon")
+
+
+
 def derived_cache_rule(index, rep, rid, cls_q):
     """Lazily computed caches of a class (`if self.X is None: self.X = f(self.Y)`) must be dropped by
     every function that stores the source field Y on instances of the class - including functions the
@@ -186,37 +218,14 @@ def run(index, rep, tier):
 
     index_state_rules(index, rep, {})
 
+    # ---- R10.1 copies carry the index state over
+    with rep.section("R10.1 copies"):
+        from . import c12
+        c12.copy_skip_rule(index, rep, "R10.1")
+
     # ---- R10.4
     with rep.section("R10.4"):
-        rm = index.function(TNS + ".remove_taxon")
-        cfg = cfg_of(rm)
-        need = {
-            "_taxa": ("remove", "taxon"),
-            "_taxon_accession_index_map": ("pop", "taxon"),
-            "_taxon_bitmask_map": ("pop", "taxon"),
-        }
-        for attr, (meth, arg) in need.items():
-            def hit(n, attr=attr, meth=meth, arg=arg):
-                return any(isinstance(c.func, ast.Attribute) and c.func.attr in (meth, "__delitem__", "discard") and norm(c.func.value) == "self." + attr
-                           and c.args and norm(c.args[0]) == arg for c in node_calls(n)) or \
-                    (n.kind == "stmt" and isinstance(n.ast, ast.Delete) and any(isinstance(t, ast.Subscript) and norm(t.value) == "self." + attr and norm(t.slice) == arg for t in n.ast.targets))
-            # paths that raise before doing anything are fine: only normal exits count
-            okp, wit = cfg.must_pass(cfg.entry, hit)
-            rep.check(okp, "R10.4", rm.qualname, "release of " + attr, fn_where(rm),
-                      "remove_taxon releases the taxon's entry in %s on every normal path" % attr,
-                      "remove_taxon can return without removing the taxon from `%s`: a removed taxon keeps its bit / stays a member" % attr)
-        pops = [c for c in calls_in(rm.node) if isinstance(c.func, ast.Attribute) and c.func.attr in ("pop", "remove") and "self._" in norm(c.func.value)]
-        idxvars = {norm(n.targets[0]) for n in walk_no_nested(rm.node) if isinstance(n, ast.Assign) and isinstance(n.value, ast.Call)
-                   and call_name(n.value) == "pop" and n.value.args and norm(n.value.args[0]) == "taxon"}
-        for c in pops:
-            a0 = norm(c.args[0]) if c.args else None
-            ok = a0 == "taxon" or a0 in idxvars
-            rep.check(ok, "R10.4", rm.qualname, norm(c), fn_where(rm, c), "remove_taxon touches only the removed taxon's entries: %s" % norm(c),
-                      "remove_taxon removes the entry keyed by `%s`, which is not the removed taxon or its own index: another member loses its bit" % a0)
-        revpop = [c for c in pops if norm(c.func.value) == "self._accession_index_taxon_map"]
-        rep.check(bool(revpop), "R10.4", rm.qualname, "release of _accession_index_taxon_map", fn_where(rm),
-                  "remove_taxon releases the index -> taxon entry", "remove_taxon never removes the index -> taxon entry: renderings still name the removed taxon")
-
+        remove_release_rule(index, rep, "R10.4")
     # ---- R10.5
     with rep.section("R10.5"):
         for name in ("sort", "reverse"):
